@@ -79,4 +79,59 @@ def setMany : ArrState → List (Nat × String) → Option ArrState
     | some a' => setMany a' rest
     | none => none
 
+
+/-! ## slice / mask / array forms (`setitem_string_scalar` with a slice, `setitem_string_scalar_mask`,
+`setitem_string_vector`, `setitem_string_vector_mask`, `getslice_string`, `==` / `!=`)
+
+`pos` is the list of (canonical) positions the subscript selects — `start + i*step` of `extract_slice_indices`, or
+the positions where the mask is non-zero — computed by the index machinery of `Model/FixedArray.lean`. -/
+
+/-- `di = _table.intern(data); for p in pos: (*this)[p] = di` -/
+def setPositions (a : ArrState) (pos : List Nat) (s : String) : Option ArrState :=
+  if pos.all (· < a.idx.length) then
+    match intern a.table s with
+    | some (t, di) => some ⟨t, pos.foldl (fun l p => l.set p di) a.idx⟩
+    | none => none
+  else none
+
+/-- `for (p, i) in zip(pos, 0..): (*this)[p] = _table.intern(data._table.lookup(data[i]))` — the string is looked up
+    in the SOURCE's table and re-interned in the destination's; `data` may be the array itself (it is read as the
+    loop goes) -/
+def setFromArray : ArrState → (Nat → ArrState → Option String) → List (Nat × Nat) → Option ArrState
+  | a, _, [] => some a
+  | a, rd, (p, i) :: rest =>
+    match rd i a with
+    | none => none
+    | some s =>
+      match setitemString a p s with
+      | none => none
+      | some a' => setFromArray a' rd rest
+
+/-- `a[pos] = b` for another array `b` -/
+def setVecString (a b : ArrState) (pos : List Nat) : Option ArrState :=
+  setFromArray a (fun i _ => getitemString b i) (pos.zip (List.range pos.length))
+
+/-- `getslice_string`: a new array with its OWN table, interning the selected strings in order -/
+def getSliceString (a : ArrState) (pos : List Nat) : Option ArrState :=
+  pos.foldl (fun acc p =>
+    match acc, getitemString a p with
+    | some r, some s =>
+      match intern r.table s with
+      | some (t, di) => some ⟨t, r.idx ++ [di]⟩
+      | none => none
+    | _, _ => none) (some ⟨[], []⟩)
+
+/-- `a == b` element-wise (strings compared through BOTH tables); `none`: a lookup failed -/
+def eqArrays (a b : ArrState) : Option (List Bool) :=
+  (List.range a.idx.length).foldr (fun i acc =>
+    match getitemString a i, getitemString b i, acc with
+    | some x, some y, some l => some ((x == y) :: l)
+    | _, _, _ => none) (some [])
+
+/-- `a == s`: `hasString` then index comparison -/
+def eqString (a : ArrState) (s : String) : List Bool :=
+  match lookupStr a.table s with
+  | some k => a.idx.map (· == k)
+  | none => a.idx.map (fun _ => false)
+
 end ImathVerif.StringTable
